@@ -31,7 +31,11 @@ BANNED = (
     "order; additive folds that wrap; zero representatives in modular arithmetic; bit sets consumed as enums; setters that "
     "normalise neighbouring fields; local slices aliasing the array they were meant to snapshot; dropping or merging entries "
     "that equal their neighbour or another field; label / suffix stripping that empties a list; mutable sentinel errors; "
-    "nested skip hints; optional trailing fields with non-nested presence conditions."
+    "nested skip hints; optional trailing fields with non-nested presence conditions; bufio.Reader Buffered()/short reads at "
+    "4096-octet windows; work done in passes of 2^14 / 2^16 words; unstable sort with equal keys; layout autodetection where a "
+    "length equals an identifier; integer-multiplication tricks for carry-less products; hidden call counters in spare bits; "
+    "unit mix-ups (hex characters vs octets); regional numbering rules for PLMNs; label order assumptions in realms; String() "
+    "methods that panic in error paths; USSD-style padding; lazily built tables without synchronisation; hand-written hash sets."
 )
 
 DEFAULT_THEME = (
